@@ -726,24 +726,29 @@ impl Rasn {
                 let class_fields = if self.config.opaque_open_types {
                     TokenStream::new()
                 } else {
-                    seq.members.iter().fold(
-                    TokenStream::new(),
-                    |mut acc, m| {
-                        m.constraints.iter().chain(m.ty.constraints()).for_each(|c| {
+                    let mut acc = TokenStream::new();
+                    for m in &seq.members {
+                        for c in m.constraints.iter().chain(m.ty.constraints()) {
                             if let (Constraint::Table(t), ASN1Type::ObjectClassField(iofr)) = (c, &m.ty) {
                                 let decode_fn = format_ident!("decode_{}", self.to_rust_snake_case(&m.name));
                                 let open_field_name = self.to_rust_snake_case(&m.name);
                                 let identifier = t.linked_fields.iter().map(|l|
                                     self.to_rust_snake_case(&l.field_name)
                                 );
-                                let field_name = iofr.field_path.last().unwrap().identifier().replace('&', "");
+                                let field_name = iofr.field_path.last().unwrap().identifier().replace('&', "").replace('-', "_");
                                 if field_name.starts_with(|initial: char| initial.is_lowercase()) {
                                     // Fixed-value fields of Information Object usages should have been resolved at this point
-                                    return;
+                                    continue;
                                 }
                                 let obj_set_name = match t.object_set.values.first() {
                                     Some(ObjectSetValue::Reference(s)) => self.to_rust_title_case(s),
-                                    _ => todo!()
+                                    _ => {
+                                        return Err(GeneratorError::new(
+                                            Some(ToplevelDefinition::Type(tld)),
+                                            "Table constraints with an inline object set are currently unsupported!",
+                                            GeneratorErrorType::NotYetInplemented,
+                                        ))
+                                    }
                                 };
                                 let field_enum_name = format_ident!("{obj_set_name}_{field_name}");
                                 let input = if m.optionality == Optionality::Required {
@@ -760,9 +765,9 @@ impl Rasn {
                                     }
                                 });
                             };
-                        });
-                        acc
-                    })
+                        }
+                    }
+                    acc
                 };
                 let formatted_members =
                     self.format_sequence_or_set_members(seq, &name.to_string())?;
@@ -937,7 +942,10 @@ impl Rasn {
 
             let mut field_enums = vec![];
             for (field_name, fields) in choices.iter() {
-                let field_enum_name = format_ident!("{name}_{}", field_name.replace('&', ""));
+                let field_enum_name = format_ident!(
+                    "{name}_{}",
+                    field_name.replace('&', "").replace('-', "_")
+                );
                 let (mut ids, mut inner_types) = (vec![], vec![]);
                 for (index, (id, ty)) in fields.iter().enumerate() {
                     let identifier_value = match id {
